@@ -11,7 +11,7 @@ WT = "/tmp/wtm"
 PY = "/venv/bin/python"
 OUT = "/verif/seeded/detection.json"
 # which checks to run for a change seeded against property X (its own first)
-EXTRA = {"C07": ["C02"], "C05": ["C06"], "C10": ["C11", "C04"], "C16": ["C06"], "C06": ["C16", "C04", "C12"],
+EXTRA = {"C07": ["C02"], "C05": ["C06", "C15"], "C10": ["C11", "C04"], "C16": ["C06"], "C06": ["C16", "C04", "C12"],
          "C19": ["C15"], "C01": ["C04", "C05"], "C02": ["C05"]}
 
 
